@@ -18,6 +18,9 @@ func (v *Value) UnmarshalNBT(tagType byte, r nbt.DecoderReader) error {
 	default:
 		return fmt.Errorf("unknown Tag %#02x", tagType)
 	case nbt.TagEnd:
+		// as RawMessage and StringifiedMessage do: a TagEnd is no value
+		// (a list may not have elements of it; a lone TagEnd is "no NBT")
+		return nbt.ErrEND
 	case nbt.TagByte:
 		n, err := r.ReadByte()
 		if err != nil {
